@@ -8,7 +8,7 @@ import runmon
 
 def run(chk):
     runmon.monitor_run(chk, chk.tier)
-    keep = ('one-truthful-reply', 'reboot-needs-consent')
+    keep = ('one-truthful-reply', 'reboot-needs-consent', 'run-explored')
     chk.obligations = [o for o in chk.obligations if o.name in keep]
     chk.bounds.update({'run loop iterations': 2, 'control requests': '1 (quick) / 2 (thorough)', 'pending polls per future': 1})
     chk.assumptions += [
